@@ -91,6 +91,10 @@ def idx(v):
     d = v[0] if isinstance(v, tuple) and len(v) == 2 and isinstance(v[1], dict) else v
     while isinstance(d, tuple):
         d = d[-1]
+    if not isinstance(d, V):
+        # every value of these pipelines descends from a source value: anything else is not a
+        # stream transformation of the input (e.g. a branch was run as an accumulator)
+        raise Violation("pipeline-yields-a-value-that-is-no-transformed-input", "value %r" % (v,))
     return d.i
 
 
@@ -125,6 +129,8 @@ def build_el(r, log):
 
         def f(v, name=name):
             log.append(("call", name, idx(v)))
+            if not (isinstance(v, tuple) and len(v) == 2):
+                raise Violation("pipeline-yields-a-value-that-is-no-transformed-input", "value %r" % (v,))
             d, c = v
             if name == "id":
                 return v
@@ -161,7 +167,12 @@ def build_el(r, log):
     if k == "make_filename":
         return MakeFilename(r[1])
     if k == "split":
-        return Split([tuple(build_el(x, log) for x in b) for b in r[1]], bufsize=r[2])
+        def mk(b):
+            if b and b[0] == "SEQ":
+                # a ready Sequence as a branch (it stays a per-block sequence whatever it contains)
+                return Sequence(*[build_el(x, log) for x in b[1:]])
+            return tuple(build_el(x, log) for x in b)
+        return Split([mk(b) for b in r[1]], bufsize=r[2])
     raise AssertionError(r)
 
 
@@ -258,7 +269,12 @@ stream_el = st.one_of(
 branch = st.lists(st.one_of(
     st.builds(lambda f: ["map", f], st.sampled_from(["id", "wrap", "ctx_k", "ctx_mut"])),
     st.builds(lambda p: ["filter", p], preds)), min_size=1, max_size=2)
-split_el = st.builds(lambda bs, n: ["split", bs, n], st.lists(branch, min_size=1, max_size=3), st.integers(1, 4))
+seq_branch = st.lists(st.one_of(
+    st.builds(lambda f: ["map", f], st.sampled_from(["id", "wrap", "ctx_k", "ctx_mut"])),
+    st.builds(lambda p: ["filter", p], preds),
+    # (names differ from those of counts outside the Split: equal names with equal counts would make a prefix look sufficient by coincidence)
+    st.builds(lambda n: ["count", n], st.sampled_from(["bcount", "bn"]))), min_size=1, max_size=2).map(lambda b: ["SEQ"] + b)
+split_el = st.builds(lambda bs, n: ["split", bs, n], st.lists(st.one_of(branch, branch, seq_branch), min_size=1, max_size=3), st.integers(1, 4))
 
 
 @st.composite
